@@ -100,9 +100,14 @@ def main(argv=None):
     if a.only: obs = [o for o in obs if re.search(a.only, o.id)]
     results = run_obligations(obs, ctx, a.jobs)
     # an inconclusive answer under full parallel load (solver budget exhausted) gets one more attempt with the machine to itself
-    retry = [i for i, o in enumerate(obs) if any(r['id'] == o.id and r['status'] == INCONC for r in results)]
+    # (only obligations whose first attempt was short: a long-running inconclusive obligation is not going to change its mind, and the
+    #  retries run one after the other)
+    retry = [i for i, o in enumerate(obs) if any(r['id'] == o.id and r['status'] == INCONC and r.get('wall_s', 0) < 90 for r in results)]
     if retry and len(retry) <= 8:
-        again = {obs[i].id: _work(i) for i in retry}
+        again = {}; t_retry = time.time()
+        for i in retry:
+            if time.time() - t_retry > 240: break
+            again[obs[i].id] = _work(i)
         results = [again.get(r['id'], r) if r['status'] == INCONC else r for r in results]
         for r in results:
             if r['id'] in again: r['retried'] = True
